@@ -767,6 +767,8 @@ fn a_of(op: &Op) -> usize { op.a }
 fn private_to(g: &Gen, i: usize, tid: usize) -> bool {
     let mine = g.with(i, |s| region_ptrs(&s.o));
     if mine.is_empty() { return matches!(g.ctx.kind(i), 2 | 3 | 7); }
+    // zero-sized regions all share the dangling pointer: they cannot be told apart, never call them private
+    if g.with(i, |s| buffers(&s.o).iter().any(|b| b.capacity() == 0 || b.is_empty())) { return false; }
     mine.iter().all(|(p, strong)| {
         let mut local = 0usize;
         for j in 0..g.nslots {
@@ -901,7 +903,7 @@ fn seed_scenario(g: &mut Gen, ncust: &mut usize) {
 /// Short deterministic-shape scenarios that drive the rarer paths (in-place success, builder, vec, stream
 /// exhaustion, re-export of an imported array); random operations are interleaved before and after them.
 fn scenario(g: &mut Gen, ncust: &mut usize) {
-    let which = g.r.below(7);
+    let which = g.r.below(8);
     let new_buf = |g: &mut Gen, ncust: &mut usize, esz: usize, custom: bool| -> usize {
         let d = g.payload(esz.max(4));
         if custom { let id = *ncust; *ncust += 1; g.push(1, id, 0, 0, 0, d); } else { g.push(0, esz, 0, 0, 0, d); }
@@ -999,6 +1001,27 @@ fn scenario(g: &mut Gen, ncust: &mut usize) {
                 g.push(10, b, 0, 0, 0, vec![]);
                 g.push(22, b, 0, 0, 0, vec![]);
             }
+        }
+        6 => { // BooleanArray with bit offsets on values and validity: the three align_nulls cases of the export
+            let d = g.payload(1); let nbits = d.len() * 8;
+            let custom = g.r.bool();
+            if custom { let id = *ncust; *ncust += 1; g.push(1, id, 0, 0, 0, d); } else { g.push(0, 1, 0, 0, 0, d); }
+            let v = g.nslots - 1;
+            let d2 = g.payload(1); let nbits2 = d2.len() * 8;
+            g.push(0, 1, 0, 0, 0, d2); let n = g.nslots - 1;
+            let ov = *g.r.pick(&[0usize, 0, 3, 8, 11]); let on = *g.r.pick(&[0usize, 3, 3, 5, 8, 11]);
+            let room = nbits.saturating_sub(ov).min(nbits2.saturating_sub(on)); if room == 0 { return; }
+            let len = 1 + g.r.below(room);
+            g.push(12, v, ov, len, 0, vec![]); g.push(12, n, on, len, 0, vec![]);
+            let with_nulls = g.r.chance(3, 4);
+            g.push(13, v, n, with_nulls as usize, 0, vec![]);
+            if g.r.bool() && len > 1 { let o = g.r.below(len); let l = g.r.below(len - o + 1); g.push(4, v, o, l, 0, vec![]); }
+            let src = g.nslots - 1; let src = if g.ctx.kind(src) == 6 { src } else { v };
+            g.push(20, src, 0, 0, 0, vec![]); let e = g.nslots - 1;
+            if g.r.bool() { g.push(5, v, 0, 0, 0, vec![]); }
+            g.push(21, e, 0, 0, 0, vec![]);
+            if g.r.bool() { g.push(22, e, 0, 0, 0, vec![]); }
+            if g.r.bool() { g.push(20, e, 0, 0, 0, vec![]); let e2 = g.nslots - 1; g.push(5, e, 0, 0, 0, vec![]); g.push(21, e2, 0, 0, 0, vec![]); }
         }
         _ => { // array whose values and validity live in the same region
             let d = g.payload(4); let words = d.len() / 4;
